@@ -123,7 +123,7 @@ Inv_C18b == C18b(s) \/ KF_HoldLeft(s)
 
 ActOK(n) == ActHolds(n, s, T(last'), s')
 Act_C01 == [][ActOK("C01a") /\ ActOK("C01ro") /\ ActOK("C01b") /\ ActOK("C01c")]_vars
-Act_C02 == [][ActOK("C02") /\ ActOK("C02pause") /\ ActOK("C02promote")]_vars
+Act_C02 == [][ActOK("C02") /\ ActOK("C02pause") /\ ActOK("C02promote") /\ ActOK("C02edit")]_vars
 Act_C03 == [][ActOK("C03a") /\ ActOK("C03b") /\ ActOK("C03c")]_vars
 Act_C10 == [][ActOK("C10a")]_vars
 Act_C11 == [][ActOK("C11a") /\ ActOK("C11b") /\ ActOK("C11c") /\ ActOK("C11d")]_vars
